@@ -25,6 +25,9 @@ func checkC10(c *Ctx, r *Report) {
 	c10b(c, r)
 	c10c(c, r)
 	c10d(c, r)
+	// whether a rule ends with `;`, with the next rule's name, with %% or with the end of the file is layout: on every
+	// way out of parseRule the literals first seen in the rule must have been handed to the declaration list (C11.a)
+	includeSome(r, "C10.d", func(sub *Report) { c11a(c, sub) }, "literal-tokens-flushed")
 }
 
 func kindConsts(c *Ctx) map[string]string {
